@@ -2779,7 +2779,13 @@ class BaseInterpreter(Generic[TContext, TEvent]):
         # For any self-transition, the domain is the parent. This forces an
         # exit/re-entry cycle for the source state.
         if target_state == transition.source:
-            return parent
+            # 🔝 The machine root has no parent. Falling back to the root
+            #    itself made the root its own domain: every descendant was
+            #    exited and the (empty) entry path re-entered nothing, leaving
+            #    only the root active - a dead machine. `None` makes the whole
+            #    machine the domain: the root is exited and re-entered like any
+            #    other re-entered state.
+            return transition.source.parent
 
         # Standard case: Compute the Least Common Compound Ancestor (LCCA).
         source_ancestors = self._get_ancestors(transition.source)
@@ -2801,7 +2807,9 @@ class BaseInterpreter(Generic[TContext, TEvent]):
         # restored, permanently killing them. The parent is the correct domain:
         # it exits and re-enters exactly the target subtree.
         if target_state in source_ancestors:
-            return target_state.parent or self.machine
+            # 🔝 ... and when that target is the machine root there is no
+            #    parent either: `None` (the whole machine) is the domain.
+            return target_state.parent
 
         if not common_ancestors:
             # Fallback to parent (or machine root) if no commonality is found.
